@@ -56,7 +56,7 @@ func runC03(c *Ctx) {
 	n := c.N(150, 6000)
 	for i := 0; i < n; i++ {
 		seed := c.Seed*1000003 + uint64(i)
-		p := gen.GenerateSeed(seed, gen.Options{RateNoTypeCond: -1, RateIfaceIface: -1, RateInvalidDir: -1, RateBacktick: -1, RateSubGetter: -1, RateGenericAbstract: -1})
+		p := gen.GenerateSeed(seed, gen.Options{RateNoTypeCond: 5, RateIfaceIface: 8, RateInvalidDir: -1, RateBacktick: -1, RateSubGetter: -1, RateGenericAbstract: -1})
 		c03Run(c, c03Case{Seed: seed, Schema: p.Schema, Ops: p.OperationsText()}, p)
 	}
 }
